@@ -1,9 +1,13 @@
 ---------------------------- MODULE MC_Pipeline ----------------------------
-(* Bounded instance of the design-level composition: 2 receivers x 3 real   *)
-(* frames (a frame sent to both, escapes in time stamps and payload, an     *)
-(* undecodable frame, a short frame left in the look-ahead), several cut     *)
-(* points incl. inside an escape pair, W in {0, 2}, four filter settings.    *)
-(* Invariants: AbsHolds (Design => PipelineAbs), DedupInv, InputAdmissible.  *)
+(* Bounded instances of the design-level composition on real frame bytes:   *)
+(* 2 receivers x <= 3 frames (a frame sent to both receivers, the same frame *)
+(* twice on one receiver, 0x1A in time stamps / signal byte / payload, an     *)
+(* undecodable frame, a status frame, a short frame left in the look-ahead,   *)
+(* a frame the filters hide), cut points incl. inside an escape pair,         *)
+(* W in {0, 2} (Skew 2) or {0, 1} (Skew 1), two filter settings per config.   *)
+(* INVARIANT AbsChecked (Design => PipelineAbs, evaluated in the states       *)
+(* reached by PrintRec); ASSUME InputAdmissible.  MC_Pipeline_mut_*.cfg are   *)
+(* wrong wirings that must violate AbsChecked.                                *)
 EXTENDS PipelineDesign
 
 PA == <<141, 64, 107, 144, 32, 21, 166, 120, 212, 210, 32, 170, 75, 218>>   \* DF17 406b90
